@@ -882,7 +882,7 @@ def cases(tier, seed):
     # ---- family 'ndbc-2d': all four directional variables present (2-D reconstruction), every resolution / layout / pattern / angle set
     for nt in (1, 2, 3):
         for nf in (2, 3):
-            for dd in (None, 90.0, 60.0, 45.0, 30.0):
+            for dd in (None, 90.0, 60.0, 45.0, 30.0, 7.2, 14.4, 22.5):   # incl. decimal steps whose double is not an exact divisor of 360
                 for latlon in (False, True):
                     for dtype in ("f8", "f4"):
                         for pat in PATTERNS:
@@ -942,7 +942,7 @@ def run(rep, tier, seed, parts=None):
         "freqs/dirs arguments x missing-value patterns x backing; 'options' = every subset of optional variables x 4 lon/lat layouts "
         "(with time axis constant/varying, station only, absent) x backing {numpy, read-only numpy, dask} x dtype; 'wind' = 16 rotations "
         "of a 16-angle wind menu over 9 records; 'ndbc' = every subset of the 4 directional variables x directional flag x dd in "
-        "{default 10, 90} (thorough: also 60, 45; nt up to 3) x (time,frequency[,latitude,longitude]) x dtype; 'ndbc-2d' = all four present x nt 1..3 x nf x dd in {10, 90, 60, 45, 30} x "
+        "{default 10, 90} (thorough: also 60, 45; nt up to 3) x (time,frequency[,latitude,longitude]) x dtype; 'ndbc-2d' = all four present x nt 1..3 x nf x dd in {10, 90, 60, 45, 30, 7.2, 14.4, 22.5} x "
         "layout x dtype x 3 value patterns x 3 angle sets. Every case goes through from_<model> and "
         "read_dataset (the thorough tier adds nd = 5, for which a half-turn is not a symmetry of the direction grid; ERA5 also through from_era5 after the renaming that read_era5 performs), each on a fresh native dataset. "
         "Every case is non-trivial by construction (energy in >= 2 frequencies and >= 2 directions, all values distinct).")
